@@ -35,6 +35,7 @@ struct vp_executor {
 extern const struct vp_executor vp_executor;
 
 /* helpers (engine/vp_util.c) */
+extern int vp_render_live;
 void vp_render(struct vp_report *rep, const char *fmt, ...) __attribute__((format(printf,2,3)));
 int  vp_fail(struct vp_report *rep, const char *key, const char *fmt, ...) __attribute__((format(printf,3,4)));
 int  vp_internal(struct vp_report *rep, const char *fmt, ...) __attribute__((format(printf,2,3)));
